@@ -401,7 +401,50 @@ def plan_C17(ctx):
                            "the crate having no statics, interior mutability or unsafe code; real threads are exercised but schedules are sampled")
 
 
+def run_cli_scenarios(ctx, scen, source, sc_prop=None):
+    binp = vcheck.build_cli()
+    b = ctx.bins(("debug",))["debug"]
+    outp = scen.replace(".ndjson", "") + ".cli.out"
+    rc, out = vcheck.run([b, "cli", scen, outp, "--bin", binp], stdout=__import__("subprocess").DEVNULL, stderr=__import__("subprocess").PIPE)
+    if rc != 0:
+        raise ToolError("harness cli failed: " + out[-2000:])
+    summary, mism = None, []
+    for line in open(outp):
+        r = json.loads(line)
+        if r.get("summary"):
+            summary = r
+        else:
+            mism.append(r)
+    for r in mism:
+        if sc_prop:
+            r["sc"] = list(set(r.get("sc", []) + [sc_prop]))
+        ctx.verdicts.add(r, source)
+    ctx.evaluations += summary["cases"]
+    ctx.validated += summary["matched"]
+    for smp in summary.get("samples", []):
+        if len(ctx.samples) < 6:
+            ctx.samples.append(smp)
+    log("  cli %s: %d process runs of the real binary, %d agree, %d mismatch, %d crash, %d hang" % (source, summary["cases"], summary["matched"], summary["mismatched"], summary["crashed"], summary["hung"]))
+    return summary
+
+
+def plan_C18(ctx):
+    ctx.rule = ("TLC runs the Cli protocol model for 19 rule-text classes (15 JSON rules incl. texts starting with '-', 4 invalid classes) x 14 data-text classes (9 JSON, 5 invalid incl. "
+                "invalid UTF-8 on stdin) x 3 ways of supplying the data, and the two-process pipe composition for log-free first stages x 5 second rules; every terminal state is a "
+                "scenario executed with the real release binary (guard off): exit status class, stdout lines, faithfulness to the in-process library result, and the actual stdout "
+                "piped into a second real invocation")
+    scen = ctx.mc("MC_C18")
+    ctx.mc("MC_C18", cfg="MC_C18_live", export=False, tag="MC_C18_live")
+    summary = run_cli_scenarios(ctx, scen, "cli-scenarios")
+    with open(scen) as f:
+        for i, line in enumerate(f):
+            ctx.nontrivial.add(("scenario", i))
+    ctx.exhaustive = True
+    ctx.assumptions.append("documented flags (-h --help -V --version), a closed stdout (EPIPE) and argv that is not valid Unicode are outside the statement")
+
+
 PLANS = {
+    "C18": plan_C18,
     "C17": plan_C17,
     "C04": plan_C04,
     "C05": plan_C05,
